@@ -538,6 +538,24 @@ pub fn plan(property: &str, tier: Tier) -> Option<Plan>
             }
             if is3
             {
+                // an exclusive reactor whose body flushes the world's command queue before it reads its event
+                let ns: &[u32] = if q { &[2] } else { &[2, 3] };
+                for &n in ns
+                {
+                    let mut c = Config::base(&format!("C03/excl-flush/N{n}"));
+                    c.actors = vec![Variant::ExclusiveFlush, Variant::Plain];
+                    c.n_ents = 1;
+                    c.setup = { let mut s = vec![Op::Insert(Comp::A, 0, 0)]; s.extend(rich_setup(&[0, 1], &[0], true, true)); s };
+                    c.fixed_top = vec![Op::Run(1)];
+                    c.script = rich_alphabet(true, true, true, None);
+                    c.budget = n;
+                    c.max_runs = 600;
+                    c.sym_actors = vec![];
+                    items.push(item(c, "excl-flush", &format!("N={n}")));
+                }
+            }
+            if is3
+            {
                 // exclusive and error-returning reactors reading every kind
                 let ns: &[u32] = if q { &[3] } else { &[3, 4] };
                 for &n in ns
@@ -692,6 +710,28 @@ pub fn plan(property: &str, tier: Tier) -> Option<Plan>
                 c.budget = n;
                 c.max_runs = 400;
                 items.push(item(c, "single", &format!("N={n}")));
+            }
+            // an exclusive listener whose body flushes the world's command queue
+            let ns: &[u32] = if q { &[2] } else { &[2, 3] };
+            for &n in ns
+            {
+                let mut c = Config::base(&format!("C05/excl-flush/N{n}"));
+                c.actors = vec![Variant::ExclusiveFlush, Variant::Plain];
+                c.n_ents = 1;
+                c.setup = vec![
+                    Op::Register(0, Bundle::two(Trig::Broadcast(Ev::A), Trig::EntityEvent(Ev::A, 0)), Mode::Persistent),
+                    Op::Register(1, Bundle::one(Trig::Broadcast(Ev::A)), Mode::Persistent),
+                ];
+                let alpha: AlphabetFn = Arc::new(|_i: &DynInfo| {
+                    vec![Op::Broadcast(Ev::A), Op::EntityEvent(Ev::A, 0), Op::SysEvent(0), Op::SysEvent(1), Op::Run(0)]
+                });
+                c.script = alpha.clone();
+                c.top = alpha;
+                c.max_top = 1;
+                c.budget = n;
+                c.max_runs = 400;
+                c.sym_actors = vec![];
+                items.push(item(c, "excl-flush", &format!("N={n}")));
             }
             // exclusive, error-returning and non-taking listeners under the same faults
             let ns: &[u32] = if q { &[3] } else { &[4, 5] };
